@@ -8,7 +8,7 @@ import re
 from harness import core, htmlnorm, treegen, trees, xdoc
 
 GEN = ['gen_tables', 'gen_regex', 'gen_config', 'gen_escapes', 'gen_core']
-THEOREMS = ['C03_code_in_sentence', 'C03_code_in_sentence_hypotheses', 'C03_fragment_code_instance', 'C03_fragment_sentence_instance', 'C03_mixed_phrases', 'C03_mixed_phrases_instance', 'C03_link_phrases', 'C03_link_phrases_instance', 'C03_link_in_sentence', 'C03_fragment_link_instance', 'C03_fragment_seq_document', 'C03_fragment_seq_html', 'C03_fragment_lists_instance', 'C03_fragment_inert_instance', 'C03_fragment_emphasis_instance', 'C03_fragment_rules_instance', 'C03_thematic_break', 'C03_thematic_configs', 'C03_setext_heading', 'C03_setext_hypotheses', 'C03_indented_code_block', 'C03_indented_code_hypotheses', 'C03_link_scanners_are_the_source', 'C03_fragment_parses', 'C03_fragment_token_tree', 'C03_fragment_hypotheses', 'C03_fragment_fuel_suffices', 'C03_fragment_document',
+THEOREMS = ['C03_strike_in_sentence', 'C03_strike_in_sentence_hypotheses', 'C03_escape_in_sentence', 'C03_escape_in_sentence_hypotheses', 'C03_code_in_sentence', 'C03_code_in_sentence_hypotheses', 'C03_fragment_code_instance', 'C03_fragment_sentence_instance', 'C03_mixed_phrases', 'C03_mixed_phrases_instance', 'C03_link_phrases', 'C03_link_phrases_instance', 'C03_link_in_sentence', 'C03_fragment_link_instance', 'C03_fragment_seq_document', 'C03_fragment_seq_html', 'C03_fragment_lists_instance', 'C03_fragment_inert_instance', 'C03_fragment_emphasis_instance', 'C03_fragment_rules_instance', 'C03_thematic_break', 'C03_thematic_configs', 'C03_setext_heading', 'C03_setext_hypotheses', 'C03_indented_code_block', 'C03_indented_code_hypotheses', 'C03_link_scanners_are_the_source', 'C03_fragment_parses', 'C03_fragment_token_tree', 'C03_fragment_hypotheses', 'C03_fragment_fuel_suffices', 'C03_fragment_document',
             'C03_fragment_html', 'C03_fragment_markdown_html', 'C03_fragment_html_instance', 'C03_fragment_paragraph_lines_instance', 'C03_fragment_headings_instance', 'C03_outline_lists', 'C03_outline_html', 'C03_outline_instance',
             'C03_fragment_document_markdown', 'C03_fragment_document_configs', 'C03_bounded_trees', 'C03_family_is_not_vacuous']
 TRUSTED = ['harness/treegen.py: the tree grammar, the speller (every free choice drawn and counted) and the direct HTML writer - the independent oracle; '
@@ -298,6 +298,24 @@ def code_parts(code):
     if code.strip(' ') and code.startswith(' ') and code.endswith(' '):
         return ' ', code[1:-1]
     return '', code
+
+
+def code_runs_html(text):
+    """CommonMark's code-span rule, written independently of the pattern: a run of n backticks opens a span closed by the NEXT run of
+    exactly n backticks; a run with no such closer is text.  The text holds only backticks and plain characters."""
+    esc = lambda x: x.replace('&', '&amp;').replace('<', '&lt;').replace('>', '&gt;')
+    runs = [(m.start(), m.end()) for m in re.finditer('`+', text)]
+    out, pos, k = '', 0, 0
+    while k < len(runs):
+        a, b = runs[k]
+        close = next((j for j in range(k + 1, len(runs)) if runs[j][1] - runs[j][0] == b - a), None)
+        if close is None:
+            k += 1
+            continue
+        out += esc(text[pos:a]) + '<code>' + esc(code_parts(text[b:runs[close][0]])[1]) + '</code>'
+        pos = runs[close][1]
+        k = close + 1
+    return out + esc(text[pos:])
 
 
 def frag_expect(t, ln):
@@ -683,6 +701,24 @@ def run(ctx, only=None):
         text = pre + '`' + code + '`' + post
         ljobs.append((text + '\n', '<p>' + escq(pre) + '<code>' + escq(code_parts(code)[1]) + '</code>' + escq(post) + '</p>\n'))
         ctx.count('code_sentences')
+    # ... of C03_strike_in_sentence and C03_escape_in_sentence
+    for _ in range(300 if ctx.quick() else 6000):
+        pre = rng.choice(['', 'see ', 'a: ', '(', 'x ', 'so, ', 'was', 'é '])
+        post = rng.choice(['', '.', ' end', ', then more', ')', '" ok', '; z', 's'])
+        if rng.random() < 0.5:
+            w = ' '.join(rng.choice(EM_INNER) for _ in range(rng.randint(1, 3)))
+            ljobs.append((pre + '~~' + w + '~~' + post + '\n', '<p>' + escq(pre) + '<del>' + escq(w) + '</del>' + escq(post) + '</p>\n'))
+            ctx.count('strike_sentences')
+        else:
+            c = rng.choice('!"#%\'()*+,-./:;=>?@[\\]^_}')
+            ljobs.append((pre + '\\' + c + post + '\n', '<p>' + escq(pre) + escq(c) + escq(post) + '</p>\n'))
+            ctx.count('escape_sentences')
+    # ... and code spans with runs of one to three backticks, against CommonMark's rule written independently of the pattern (code_runs_html)
+    for _ in range(400 if ctx.quick() else 8000):
+        pieces = [rng.choice(['a', 'b c', 'x', ' ', 'y z', ' p ', 'é', 'q, r', '(t)']) if rng.random() < 0.55 else '`' * rng.randint(1, 3) for _ in range(rng.randint(2, 8))]
+        text = ('w ' + ''.join(pieces)).rstrip(' ')
+        ljobs.append((text + '\n', '<p>' + code_runs_html(text) + '</p>\n'))
+        ctx.count('code_run_sentences')
     with mp.Pool(core.NPROC) as pool:
         lres = pool.map(markdown_worker, [t for t, _ in ljobs], chunksize=50)
     for (text, want), got in zip(ljobs, lres):
